@@ -276,7 +276,7 @@ void *c02_thread(void *arg) {
 }
 
 // ---- C03 -------------------------------------------------------------------------------------------
-struct C03Prog { string shape; int cap = 1, prod = 1, items = 2, cons = 1, waiters = 2; char ne = 's', nf = 's', gate = 'b'; int out = 0; /* 1: wake-ups are issued after the mutex was released */ };
+struct C03Prog { string shape; int cap = 1, prod = 1, items = 2, cons = 1, waiters = 2; char ne = 's', nf = 's', gate = 'b'; int out = 0, phases = 1; /* gate: phases=2 repeats the gate with the SAME condition variable and a second mutex once nobody waits any more */ /* 1: wake-ups are issued after the mutex was released */ };
 bool parse_c03(const string &p, C03Prog &g) {
   auto w = vl::split_ws(p);
   if (w.empty()) return false;
@@ -286,13 +286,13 @@ bool parse_c03(const string &p, C03Prog &g) {
     string k = w[i].substr(0, e), v = w[i].substr(e + 1);
     if (k == "cap") g.cap = atoi(v.c_str()); else if (k == "prod") g.prod = atoi(v.c_str()); else if (k == "items") g.items = atoi(v.c_str());
     else if (k == "cons") g.cons = atoi(v.c_str()); else if (k == "waiters") g.waiters = atoi(v.c_str());
-    else if (k == "ne") g.ne = v[0]; else if (k == "nf") g.nf = v[0]; else if (k == "gate") g.gate = v[0]; else if (k == "out") g.out = atoi(v.c_str());
+    else if (k == "ne") g.ne = v[0]; else if (k == "nf") g.nf = v[0]; else if (k == "gate") g.gate = v[0]; else if (k == "out") g.out = atoi(v.c_str()); else if (k == "phases") g.phases = atoi(v.c_str());
   }
   return true;
 }
 struct C03State {
   C03Prog p;
-  PMutex *m = nullptr; PCondVariable *not_empty = nullptr, *not_full = nullptr, *gate_cv = nullptr;
+  PMutex *m = nullptr, *m0 = nullptr; PCondVariable *not_empty = nullptr, *not_full = nullptr, *gate_cv = nullptr;
   vector<int> queue; vector<int> consumed; int produced_total = 0; int to_consume = 0;
   bool gate_open = false; int passed = 0;
   int holder = -1; // shadow: who is inside the mutex-protected section
@@ -592,7 +592,7 @@ void run_child(const Case &c) {
   } else if (c.prop == "C03") {
     C03State g; g3 = &g;
     if (!parse_c03(c.prog, g.p)) child_fail("harness", "bad C03 program");
-    g.m = p_mutex_new(); g.not_empty = p_cond_variable_new(); g.not_full = p_cond_variable_new(); g.gate_cv = p_cond_variable_new();
+    g.m = g.m0 = p_mutex_new(); g.not_empty = p_cond_variable_new(); g.not_full = p_cond_variable_new(); g.gate_cv = p_cond_variable_new();
     vs::begin(c.sched, c.spurious, c.budget);
     vector<pthread_t> th;
     if (g.p.shape == "bb") {
@@ -607,8 +607,14 @@ void run_child(const Case &c) {
       // per-producer FIFO order
       std::map<int, int> last; for (int v : g.consumed) { int p = v / 1000; if (last.count(p) && last[p] > v) child_fail("exchange", "items of one producer consumed out of order"); last[p] = v; }
     } else {
-      for (long i = 0; i < g.p.waiters; i++) { pthread_t t; vs_pthread_create(&t, NULL, c03_gate_waiter, NULL); th.push_back(t); }
-      pthread_t t; vs_pthread_create(&t, NULL, c03_gate_opener, NULL);
+      PMutex *m2 = p_mutex_new();
+      for (int ph = 0; ph < g.p.phases; ph++) {
+        // a condition variable is bound to a mutex only while somebody waits on it: the next phase, started when every thread of
+        // the previous one was joined, pairs the same condition variable with another mutex
+        if (ph > 0) { for (pthread_t t : th) vs_pthread_join(t, NULL); th.clear(); if (g.passed != g.p.waiters) child_fail("exchange", "not every waiter passed the gate"); g.m = ph % 2 ? m2 : g.m0; g.gate_open = false; g.passed = 0; }
+        for (long i = 0; i < g.p.waiters; i++) { pthread_t t; vs_pthread_create(&t, NULL, c03_gate_waiter, NULL); th.push_back(t); }
+        pthread_t t; vs_pthread_create(&t, NULL, c03_gate_opener, NULL); th.push_back(t);
+      }
       vs::finish_all();
       if (g.passed != g.p.waiters) child_fail("exchange", "not every waiter passed the gate");
     }
@@ -796,13 +802,13 @@ rc::Gen<Case> genC03() {
     // signal (rather than broadcast) is only correct here when a single kind of waiter sits on each condition variable - true for this program
     os << "bb cap=" << std::get<0>(t) << " prod=" << std::get<1>(t) << " items=" << std::get<2>(t) << " cons=" << cons << " ne=" << std::get<4>(t) << " nf=" << std::get<5>(t) << " out=" << std::get<6>(t);
     return os.str(); });
-  auto gate = gen::map(gen::tuple(rng(2, 5), gen::element('b', 's'), rng(0, 2)), [](const std::tuple<int, char, int> &t) { std::ostringstream os; os << "gate waiters=" << std::get<0>(t) << " gate=" << std::get<1>(t) << " out=" << std::get<2>(t); return os.str(); });
+  auto gate = gen::map(gen::tuple(rng(2, 5), gen::element('b', 's'), rng(0, 2), rng(1, 4)), [](const std::tuple<int, char, int, int> &t) { std::ostringstream os; os << "gate waiters=" << std::get<0>(t) << " gate=" << std::get<1>(t) << " out=" << std::get<2>(t) << " phases=" << std::get<3>(t); return os.str(); });
   return gen::map(gen::tuple(gen::oneOf(bb, gate), genScheduleLong(), rng(0, 3), rng(0, 4)), [](const std::tuple<string, vector<uint8_t>, int, int> &x) {
     Case c; c.prop = "C03"; c.prog = std::get<0>(x); c.sched = std::get<1>(x); c.spurious = std::get<2>(x) != 0; c.budget = std::get<3>(x); return c; });
 }
 rc::Gen<Case> genC04() {
   using namespace rc;
-  auto operand = gen::weightedOneOf<long>({{5, gen::element<long>(0, 1, -1, 2, 7, INT_MAX, INT_MIN, 0x7FFFFFF0, 0xFF, 0xFFFF0000L, 0x80000000L)}, {2, gen::map(rng(-1000, 1000), [](int v) { return (long)v; })}});
+  auto operand = gen::weightedOneOf<long>({{5, gen::element<long>(0, 1, -1, 2, 7, INT_MAX, INT_MIN, 0x7FFFFFF0, 0xFF, 0xFFFF0000L, 0x80000000L, 0x100000000L, 0x1FFFFFFFFL, LONG_MAX, LONG_MIN, -0x80000001L, 0x7FFFFFFF00000000L)}, {2, gen::map(rng(-1000, 1000), [](int v) { return (long)v; })}});
   auto op = gen::map(gen::tuple(gen::weightedElement<char>({{3, 'i'}, {3, 'd'}, {4, 'a'}, {2, 'n'}, {2, 'o'}, {2, 'x'}, {3, 'c'}, {2, 'g'}, {2, 's'}}), operand, operand), [](const std::tuple<char, long, long> &t) {
     std::ostringstream os; char k = std::get<0>(t); os << k;
     if (k == 'c') os << std::get<1>(t) << ',' << std::get<2>(t); else if (k != 'i' && k != 'd' && k != 'g') os << std::get<1>(t);
@@ -892,7 +898,7 @@ vector<Case> shapes_for(const string &prop) {
     v.push_back(shape("dsched C02\nobj w\nT X0.1.- R0.1.-\nT x0.1.-\nT r0.1.-\n"));
     v.push_back(shape("dsched C02\nopt spurious=1 budget=2\nobj w\nT x0.1.-\nT r0.1.-\nT x0.1.-\n"));
   } else if (prop == "C03") {
-    for (const char *p : {"bb cap=1 prod=1 items=2 cons=1 ne=s nf=s", "bb cap=1 prod=2 items=1 cons=2 ne=s nf=s", "bb cap=2 prod=1 items=3 cons=2 ne=b nf=s", "bb cap=1 prod=2 items=1 cons=2 ne=b nf=b out=1", "bb cap=2 prod=2 items=2 cons=2 ne=s nf=s out=1", "gate waiters=2 gate=b", "gate waiters=3 gate=b out=1", "gate waiters=2 gate=s"}) {
+    for (const char *p : {"bb cap=1 prod=1 items=2 cons=1 ne=s nf=s", "bb cap=1 prod=2 items=1 cons=2 ne=s nf=s", "bb cap=2 prod=1 items=3 cons=2 ne=b nf=s", "bb cap=1 prod=2 items=1 cons=2 ne=b nf=b out=1", "bb cap=2 prod=2 items=2 cons=2 ne=s nf=s out=1", "gate waiters=2 gate=b", "gate waiters=3 gate=b out=1", "gate waiters=2 gate=s phases=2"}) {
       Case c; c.prop = "C03"; c.prog = p; v.push_back(c);
       Case d = c; d.spurious = true; d.budget = 2; v.push_back(d);
     }
